@@ -25,15 +25,17 @@ func c07Compile(src string, names []string) *compiler.Code {
 }
 
 // first invocations, one per outcome class; every one defines h first
+const c07Pre = "h := func(p) { return p + 1 }\nfunc deep(k) { if k <= 0 { return 0 }; return 1 + deep(k - 1) }\nfunc over(k) { return 1 + (2 + (3 + over(k + 1))) }\n"
+
 var c07First = []struct{ name, src string; fails bool }{
-	{"normal", "h := func(p) { return p + 1 }\nx := a\nx", false},
-	{"error-depth-0", "h := func(p) { return p + 1 }\n[1][5]", true},
-	{"error-depth-2", "h := func(p) { return p + 1 }\nf := func() { g := func() { return [1][5] }; return g() + 1 }\nf() + 1", true},
-	{"raised-error-in-callback", "h := func(p) { return p + 1 }\n[1, 2].map(func(v) { error(\"boom\") })", true},
-	{"go-panic-divide-by-zero", "h := func(p) { return p + 1 }\nz := 0\n1 + (a / z)", true},
-	{"frame-overflow", "h := func(p) { return p + 1 }\nfunc r(k) { return r(k + 1) }\nr(0)", true},
-	{"stack-overflow", "h := func(p) { return p + 1 }\nfunc s(k) { return 1 + (2 + (3 + s(k + 1))) }\ns(0)", true},
-	{"error-with-pending-operands", "h := func(p) { return p + 1 }\nl := [a, a + 1, [1][7], 4]", true},
+	{"normal", c07Pre + "x := a\nx", false},
+	{"error-depth-0", c07Pre + "[1][5]", true},
+	{"error-depth-2", c07Pre + "f := func() { g := func() { return [1][5] }; return g() + 1 }\nf() + 1", true},
+	{"raised-error-in-callback", c07Pre + "[1, 2].map(func(v) { error(\"boom\") })", true},
+	{"go-panic-divide-by-zero", c07Pre + "z := 0\n1 + (a / z)", true},
+	{"frame-overflow", c07Pre + "func r(k) { return r(k + 1) }\nr(0)", true},
+	{"stack-overflow", c07Pre + "func s(k) { return 1 + (2 + (3 + s(k + 1))) }\ns(0)", true},
+	{"error-with-pending-operands", c07Pre + "l := [a, a + 1, [1][7], 4]", true},
 }
 
 // HarnessC07HistoryIndependence: after an invocation of any outcome class, a
@@ -79,7 +81,31 @@ func HarnessC07HistoryIndependence() {
 		return
 	}
 	h := hObj.(*object.Function)
-	switch verifrt.Choose(2) {
+	// optionally a failing Call (operand-stack overflow inside Call) comes in between
+	if verifrt.Bool() {
+		overObj, oerr := machine.Get("over")
+		verifrt.Assert(oerr == nil, "global-defined-before-the-failure-is-available")
+		if oerr == nil {
+			_, cerr := machine.Call(ctx, overObj.(*object.Function), []object.Object{object.NewInt(0)})
+			verifrt.Assert(cerr != nil, "overflowing-call-fails")
+			verifrt.Assert(!machine.running, "not-running-after-failed-call")
+		}
+	}
+	switch verifrt.Choose(3) {
+	case 2:
+		// a deeply recursive call needs the whole frame/stack capacity
+		deepObj, derr := machine.Get("deep")
+		verifrt.Assert(derr == nil, "global-defined-before-the-failure-is-available")
+		if derr != nil {
+			return
+		}
+		res, err := machine.Call(ctx, deepObj.(*object.Function), []object.Object{object.NewInt(900)})
+		verifrt.Reach("deep-call")
+		verifrt.Assert(err == nil, "deep-call-after-history-succeeds")
+		if err == nil {
+			iv, ok := asInt(res)
+			verifrt.Assert(ok && iv == 900, "deep-call-after-history-value")
+		}
 	case 0:
 		res, err := machine.Call(ctx, h, []object.Object{object.NewInt(b)})
 		verifrt.Reach("call")
